@@ -11,9 +11,7 @@ import (
 	"github.com/nspcc-dev/locode-db/pkg/locodedb"
 	"github.com/nspcc-dev/neo-go/pkg/core/transaction"
 	"github.com/nspcc-dev/neo-go/pkg/network/payload"
-	"github.com/nspcc-dev/neo-go/pkg/smartcontract/scparser"
 	"github.com/nspcc-dev/neo-go/pkg/util"
-	"github.com/nspcc-dev/neo-go/pkg/vm/stackitem"
 	netmaprpc "github.com/nspcc-dev/neofs-contract/rpc/netmap"
 	irnetmap "github.com/nspcc-dev/neofs-node/pkg/innerring/processors/netmap"
 	"github.com/nspcc-dev/neofs-node/pkg/innerring/processors/netmap/nodevalidation"
@@ -21,6 +19,7 @@ import (
 	"github.com/nspcc-dev/neofs-node/pkg/innerring/processors/netmap/nodevalidation/privatedomains"
 	statevalidation "github.com/nspcc-dev/neofs-node/pkg/innerring/processors/netmap/nodevalidation/state"
 	"github.com/nspcc-dev/neofs-node/pkg/innerring/processors/netmap/nodevalidation/structure"
+	cntClient "github.com/nspcc-dev/neofs-node/pkg/morph/client/container"
 	nmClient "github.com/nspcc-dev/neofs-node/pkg/morph/client/netmap"
 	netmapEvent "github.com/nspcc-dev/neofs-node/pkg/morph/event/netmap"
 	"github.com/nspcc-dev/neofs-sdk-go/netmap"
@@ -51,6 +50,12 @@ type irnState struct {
 	epochProc *irnetmap.Processor
 	nm        *nmClient.Client
 	nmPlain   *nmClient.Client // over the client without notary support: NewEpoch arguments are visible
+	cnr       *cntClient.Client
+	nmHist    *nmClient.Client // as alphabet, for the ONE processor of a history
+	// contract methods other than newEpoch invoked as notary requests since the last op
+	otherInvokes int
+	histFails    map[string]int
+	hist      *irnHist // the history state of the running sequence (eng_irn_hist.go)
 }
 
 func (s *irnState) IsAlphabet() bool             { return s.alpha }
@@ -226,31 +231,16 @@ func (n irnNode) info(line string) netmap.NodeInfo {
 
 func irnExec(c *runCtx, ops []string) {
 	s := irnGet()
-	s.fake.invokeScript = func(script []byte) bool {
-		// a test run of a contract call made by the client (NewEpoch): record it and fault
-		if _, method, _, args, err := scparser.ParseAppCallNonStrict(script); err == nil {
-			if method == "newEpoch" && len(args) == 1 {
-				if v, err := scparser.GetInt64FromInstr(args[0].Instruction); err == nil {
-					s.reqs = append(s.reqs, int(v))
-				}
-			}
-			return false
-		}
-		// the main transaction script of a notary request (IsValidScript)
-		s.scripts++
-		return len(script) >= 2 && script[0] == 0xA8 && script[1] == 1
-	}
+	// chain answers: IsValidScript of notary main transactions, recorded NewEpoch requests, the
+	// contract's node list and the container list read by the new epoch handler (eng_irn_hist.go)
+	s.fake.invokeScript = s.histInvokeScript
 	prevFn := s.fake.invokeFunction
-	s.fake.invokeFunction = func(method string, args []irArg) ([]stackitem.Item, string) {
-		if method == "newEpoch" && len(args) == 1 {
-			s.reqs = append(s.reqs, int(args[0].int()))
-		}
-		return nil, "verif: recorded " + method
-	}
+	s.fake.invokeFunction = s.histInvokeFunction
+	s.fake.cli.VerifSetInterceptor(s.histIntercept)
+	defer s.fake.cli.VerifSetInterceptor(nil)
 	defer func() { s.fake.invokeFunction = prevFn }()
-	s.alpha = false
-	s.counter.Store(0)
-	s.resets = 0
+	// ONE processor and ONE composite validator for the history ops of the sequence (default until hinit)
+	s.hist = s.newHist(nil, false, 0)
 	proc := irnetmap.VerifNewProcessor(s.nm, s, s, s, s.validators(nil))
 	s.epochProc = irnetmap.VerifNewProcessor(s.nmPlain, s, s, s, s.validators(nil))
 	// validate / addnode / updpeer ops do not depend on earlier ops; epoch histories do
@@ -259,6 +249,10 @@ func irnExec(c *runCtx, ops []string) {
 		switch parseOp(line).name {
 		case "init", "tick", "newepoch", "alpha":
 			c.independent = false
+		default:
+			if irnIsHistOp(parseOp(line).name) {
+				c.independent = false
+			}
 		}
 	}
 	for _, line := range ops {
@@ -285,9 +279,30 @@ func irnRun(c *runCtx, s *irnState, procp **irnetmap.Processor, line string, o o
 	}()
 	proc := *procp
 	s.fake.reset()
-	s.calls, s.failed, s.scripts, s.reqs = 0, -1, 0, nil
+	s.calls, s.failed, s.scripts, s.reqs, s.otherInvokes = 0, -1, 0, nil, 0
 	epochObs := func() string {
 		return fmt.Sprintf("=> req=%s counter=%d resets=%d", joinInts(s.reqs), s.counter.Load(), s.resets)
+	}
+	if irnIsHistOp(o.name) {
+		// every recorded failure is shrunk by replaying subsequences of its history: two witnesses per assertion
+		// and run are kept, the rest is counted
+		horc := func(assertion string, ok bool, detail string) {
+			if !ok {
+				if s.histFails == nil {
+					s.histFails = map[string]int{}
+				}
+				s.histFails[assertion]++
+				if s.histFails[assertion] > 2 {
+					*post = append(*post, func() { c.nOracle++; c.count("oracle_fail:" + assertion) })
+					return
+				}
+			}
+			orc(assertion, ok, detail)
+		}
+		if obs, ok := irnHistRun(c, s, line, o, horc); ok {
+			return obs
+		}
+		return "=> bad-op"
 	}
 	switch o.name {
 	case "validate", "addnode":
@@ -510,5 +525,9 @@ func irnGen(c *runCtx, run func([]string)) {
 			}
 		}
 		run(hist)
+	}
+	// histories against ONE processor and ONE composite validator (eng_irn_hist.go)
+	for h := 0; h < c.n(200, 2000); h++ {
+		run(irnGenHistory(r))
 	}
 }
